@@ -438,30 +438,113 @@ def analyze(ctx, want):
         ob("C13.a", "cache-key-is-the-full-mode-list", ok, "cache map type: %s" % ft["s"][:150], ca["file"])
         ok_v = ft["k"] == "adt" and ft["args"][1]["s"].startswith("std::sync::Arc<internal::scanner_impl::ScannerImpl")
         ob("C13.d", "cache-value-is-immutable-handle", ok_v, "value type %s" % (ft["args"][1]["s"] if ft["k"] == "adt" else "?"), ca["file"])
+    # Equality and hash of the key types distinguish every field.  A derive does (and is recognised as such); a
+    # hand-written impl is accepted when it is field-wise: every path of eq that can answer `true` compared self.f with
+    # other.f for every field f, and hash feeds every field into the hasher on every path.  Comparisons of a function of
+    # the whole value (e.g. its Display text) are not accepted: such renderings need not be injective.
+    def strip_ref(t):
+        while t[0] in ("ref", "deref") or (t[0] == "app" and re.search(r"Deref>::deref$|Borrow<.*>>::borrow$|AsRef<.*>>::as_ref$", str(t[1])) and len(t[2]) == 1):
+            if t[0] == "ref":
+                loc = t[1]
+                if loc[0] == "loc" and loc[1][0] == "sym":
+                    return ("loc", loc[1], tuple(st[1] for st in loc[2]))
+                return t
+            t = t[1] if t[0] == "deref" else t[2][0]
+        return t
+
+    def side(t):
+        """('self'|'other', field) if t denotes <self|other>.<field> (through any number of references), else None"""
+        s_ = S.fstr(t).lstrip("&*")
+        m = re.match(r"^\(?\*?(self|other|arg1|arg2)\)?\.(\w+)$", s_)
+        if m:
+            return ({"arg1": "self", "arg2": "other"}.get(m.group(1), m.group(1)), m.group(2))
+        return None
+
+    def eq_fields(t, outcome=True):
+        l = r = None
+        neg = False
+        if t[0] == "binop" and t[1] in ("Eq", "Ne"):
+            l, r, neg = t[2], t[3], t[1] == "Ne"
+        elif t[0] == "app" and re.search(r"PartialEq(<[^>]*>)?>::(eq|ne)$", str(t[1])) and len(t[2]) == 2:
+            l, r, neg = t[2][0], t[2][1], str(t[1]).endswith("::ne")
+        elif t[0] == "not":
+            return eq_fields(t[1], not outcome)
+        if l is None:
+            return None
+        if (outcome is True) == neg:
+            return None          # this atom being (un)true says the fields differ
+        a_, b_ = side(l), side(r)
+        if a_ and b_ and a_[1] == b_[1] and {a_[0], b_[0]} == {"self", "other"}:
+            return a_[1]
+        return None
+
+    def fieldwise_eq(fn, fields):
+        ex_, ps_ = run_fn(fn, F, BaseModel(), max_paths=4000)
+        bad = []
+        n_true = 0
+        for p_ in ret_paths(ps_):
+            r_ = p_.end[1]
+            if r_ == ("bool", False):
+                continue
+            got = set()
+            for c_, o_ in p_.conds:
+                if isinstance(o_, bool):
+                    f_ = eq_fields(c_, o_)
+                    if f_:
+                        got.add(f_)
+            if r_ != ("bool", True):
+                f_ = eq_fields(r_, True)
+                if f_:
+                    got.add(f_)
+                else:
+                    bad.append("result %s is not a comparison of one field of self with the same field of other" % S.fstr(r_)[:70])
+                    continue
+            n_true += 1
+            if not set(fields) <= got:
+                bad.append("can answer 'equal' after comparing only %s of %s" % (sorted(got), fields))
+        return (n_true >= 1 and not bad), "; ".join(bad[:2]) or "every accepting path compares %s" % fields
+
+    def fieldwise_hash(fn, fields):
+        ex_, ps_ = run_fn(fn, F, BaseModel(), max_paths=4000)
+        bad = []
+        n_ = 0
+        for p_ in ret_paths(ps_):
+            n_ += 1
+            got = set()
+            for c_ in p_.calls(r"Hash>::hash(::<.*>)?$|Hasher>::write\w*$"):
+                a0 = c_[3][0]
+                v_ = ex_.deref_val(p_, a0) if a0[0] == "ref" else a0
+                for cand in (a0, v_):
+                    sd = side(cand)
+                    if sd and sd[0] == "self":
+                        got.add(sd[1])
+            if not set(fields) <= got:
+                bad.append("hashes only %s of %s" % (sorted(got), fields))
+        return (n_ >= 1 and not bad), "; ".join(bad[:2]) or "every path hashes %s" % fields
+
     for tname in ("scanner_mode::ScannerMode", "pattern::Pattern", "pattern::Lookahead", "internal::ids::TerminalID", "internal::ids::ScannerModeID"):
+        a = F.adts.get(tname)
+        fields = [f["name"] for f in a["variants"][0]["fields"]] if a else None
+        short = tname.split("::")[-1]
         for tr in ("std::hash::Hash", "std::cmp::PartialEq", "std::cmp::Eq"):
             ims = [i for i in F.impls if i["of_trait"] and i["trait"] == tr and i["self"]["s"] == tname]
-            ok = len(ims) == 1 and ims[0]["derived"]
+            trs = tr.split("::")[-1]
+            if len(ims) != 1 or fields is None:
+                ok, det = False, "%d impl(s) of %s for %s" % (len(ims), tr, tname)
+            elif ims[0]["derived"] or trs == "Eq":
+                ok, det = True, "derived (covers every field)" if ims[0]["derived"] else "marker impl"
+            else:
+                body = [f for f in F.fns.values() if re.search(r"<%s as %s>::%s$" % (re.escape(tname), re.escape(tr), "eq" if trs == "PartialEq" else "hash"), f.name)]
+                if len(body) != 1:
+                    ok, det = False, "hand-written impl without a unique body"
+                else:
+                    try:
+                        ok, det = (fieldwise_eq if trs == "PartialEq" else fieldwise_hash)(body[0], fields)
+                    except Exception as e_:
+                        ok, det = False, "hand-written impl not understood (%s)" % type(e_).__name__
+                    det = "hand-written: " + det
             for rule in ("C13.a", "C16.e"):
-                ob(rule, "derived:%s:%s" % (tr.split("::")[-1], tname.split("::")[-1]), ok,
-                   "%s for %s: %d impl(s), derived=%s (a derive covers every field: name, patterns, token types, lookahead and polarity, order, transitions)" % (tr, tname, len(ims), [i["derived"] for i in ims]), ims[0]["file"] if ims else "")
-    # every field of the key types is read by the derived impls: field count of the types = fields compared
-    for tname in ("scanner_mode::ScannerMode", "pattern::Pattern", "pattern::Lookahead"):
-        a = F.adts.get(tname)
-        eqf = [f for f in F.fns.values() if re.search(r"<%s as std::cmp::PartialEq>::eq$" % re.escape(tname), f.name)]
-        hf = [f for f in F.fns.values() if re.search(r"<%s as std::hash::Hash>::hash$" % re.escape(tname), f.name)]
-        if a is None or len(eqf) != 1 or len(hf) != 1:
-            ctx.missing("C13.a", "derived eq/hash bodies of " + tname) if "C13.a" in want else None
-            continue
-        fields = [f["name"] for f in a["variants"][0]["fields"]]
-        for fn, what in ((eqf[0], "eq"), (hf[0], "hash")):
-            read = set()
-            for bb, i, s in fn.assigns():
-                for p in M.rvalue_places(s["rv"]):
-                    for adt, f_ in M.place_fields(p):
-                        if adt.endswith(tname.split("::")[-1]):
-                            read.add(f_)
-            ob("C13.a", "%s-covers-every-field:%s" % (what, tname.split("::")[-1]), set(fields) <= read, "%s reads %s of %s" % (what, sorted(read), fields), fn.loc())
+                ob(rule, "distinguishes-every-field:%s:%s" % (trs, short), ok, "%s for %s: %s" % (tr, tname, det), ims[0]["file"] if ims else "")
     # C13.b/c/d ScannerCache::get paths
     ex, paths = run_fn(sg, F, BaseModel())
     seen = set()
